@@ -35,6 +35,18 @@ type ptrOp struct{ text string }
 func (o *ptrOp) String() string  { return o.text }
 func (o *ptrOp) Context() string { return "ptr" }
 
+// mapOp and funcOp are user-defined Operators of reference kinds whose nil value is a perfectly good
+// operator (their methods do not touch the value).
+type mapOp map[string]string
+
+func (o mapOp) String() string  { return "=map=" }
+func (o mapOp) Context() string { return "map-operator" }
+
+type funcOp func()
+
+func (o funcOp) String() string  { return "=fn=" }
+func (o funcOp) Context() string { return "func-operator" }
+
 // sliceOp is a user-defined Operator of an uncomparable type (comparing two of them with == panics).
 type sliceOp []string
 
